@@ -11,6 +11,7 @@ import (
 	"errors"
 	"fmt"
 	"runtime"
+	"sync"
 	"sync/atomic"
 	"testing"
 	"time"
@@ -463,4 +464,132 @@ func TestC20_Fixed(t *testing.T) {
 		}
 		record("C20", f, false, "fixed_replay")
 	}
+}
+
+// ---- checkpoint read through cbMetadata.Load (context.Background + a hard-coded 5 s deadline; errors are a
+// fail-stop on a library goroutine, hence a child process) ----
+
+type c20Load struct {
+	Behave string `json:"behave"` // prompt | missing | silent | status
+	Status int    `json:"status"`
+}
+
+func c20LoadChild(raw json.RawMessage) any {
+	var sc c20Load
+	_ = json.Unmarshal(raw, &sc)
+	e := newLBFresh(1, 16, 0)
+	e.cfg.Dcp.Group.Name = "c20"
+	if sc.Behave != "missing" {
+		e.c.Lock()
+		e.c.Docs["_connector:cbgo:c20:checkpoint:5"] = &simnode.Doc{Body: []byte(`{}`), Cas: 9,
+			Xattr: map[string][]byte{"cbgo": []byte(`{"checkpoint":{"vbuuid":7,"seqno":3,"snapshot":{"startSeqno":1,"endSeqno":4}},"bucketUuid":"u"}`)}}
+		e.c.Unlock()
+	}
+	e.c.Lock()
+	e.c.Hook = func(en *simnodeEntry) simnodeAction {
+		if en.Cmd != memd.CmdSubDocMultiLookup {
+			return simnodeAction{}
+		}
+		switch sc.Behave {
+		case "silent":
+			return simnodeAction{Kind: simnodeSilent}
+		case "status":
+			return simnodeAction{Kind: simnodeStatus, Status: memd.StatusCode(sc.Status)}
+		}
+		return simnodeAction{}
+	}
+	e.c.Unlock()
+	md := couchbase.NewCBMetadata(e.client, e.cfg)
+	type out struct {
+		Seq   uint64
+		Exist bool
+		Err   string
+	}
+	res := make(chan out, 1)
+	t0 := time.Now()
+	go func() {
+		st, exist, err := md.Load([]uint16{5}, "u")
+		o := out{Exist: exist, Err: fmt.Sprint(err)}
+		if st != nil {
+			if d, ok := st.Load(5); ok && d != nil && d.Checkpoint != nil {
+				o.Seq = d.Checkpoint.SeqNo
+			}
+		}
+		res <- o
+	}()
+	select {
+	case o := <-res:
+		return map[string]any{"returned": true, "ms": time.Since(t0).Milliseconds(), "seq": o.Seq, "exist": o.Exist, "err": o.Err}
+	case <-time.After(9 * time.Second):
+		return map[string]any{"returned": false, "ms": time.Since(t0).Milliseconds()}
+	}
+}
+
+func c20ExecLoad(sc c20Load) string {
+	r := runChild("c20load", sc, 60*time.Second)
+	var res struct {
+		Returned bool   `json:"returned"`
+		Ms       int64  `json:"ms"`
+		Seq      uint64 `json:"seq"`
+		Exist    bool   `json:"exist"`
+		Err      string `json:"err"`
+	}
+	_ = json.Unmarshal(r.Result, &res)
+	died := r.Exit != 0
+	switch sc.Behave {
+	case "prompt":
+		if died || !res.Returned || res.Seq != 3 || !res.Exist {
+			return fmt.Sprintf("checkpoint read against a healthy node: died=%v %+v %s", died, res, firstLine(r.Stderr))
+		}
+	case "missing":
+		if died || !res.Returned || res.Exist || res.Seq != 0 {
+			return fmt.Sprintf("checkpoint read of a missing document must report 'no checkpoint': died=%v %+v %s", died, res, firstLine(r.Stderr))
+		}
+	default:
+		// silence / an error status: the read must end by its (5 s) deadline with an error - which the loader
+		// turns into a fail-stop -, never hang and never report a checkpoint
+		if !died {
+			if !res.Returned {
+				return fmt.Sprintf("the checkpoint read neither returned nor failed within 9 s of a node behaving '%s' (its deadline is 5 s): the operation hangs", sc.Behave)
+			}
+			if res.Exist || res.Seq != 0 {
+				return fmt.Sprintf("the checkpoint read reported a checkpoint (%+v) although the node behaved '%s'", res, sc.Behave)
+			}
+			if sc.Behave == "silent" {
+				return fmt.Sprintf("the node never answered the checkpoint read, yet the loader carried on without an error (%+v)", res)
+			}
+		}
+	}
+	return ""
+}
+
+func TestC20_CheckpointRead(t *testing.T) {
+	scs := []c20Load{{Behave: "prompt"}, {Behave: "missing"}, {Behave: "silent"}, {Behave: "status", Status: int(memd.StatusAccessError)}}
+	if thorough() {
+		scs = append(scs, c20Load{Behave: "status", Status: int(memd.StatusInternalError)}, c20Load{Behave: "silent"})
+	}
+	out := make([]string, len(scs))
+	var wg sync.WaitGroup
+	for i := range scs {
+		wg.Add(1)
+		go func(i int) { defer wg.Done(); out[i] = c20ExecLoad(scs[i]) }(i)
+	}
+	wg.Wait()
+	for i, d := range out {
+		if d != "" {
+			violation(t, "C20", "c20load", scs[i], "%s", d)
+		}
+		record("C20", scs[i], scs[i].Behave == "silent" || scs[i].Behave == "status", "checkpoint_read_cases")
+	}
+}
+
+func init() {
+	registerChild("c20load", c20LoadChild)
+	registerReplay("c20load", func(raw json.RawMessage) string {
+		var sc c20Load
+		if err := json.Unmarshal(raw, &sc); err != nil {
+			return err.Error()
+		}
+		return c20ExecLoad(sc)
+	})
 }
